@@ -16,11 +16,11 @@ const PubPemType = "LIBP2P PUBLIC KEY"
 // ParseKeyPem parses a private or public key in pem format.
 // Derives the public key from the private key.
 // Returns nil for the private key if not set.
-// Returns nil, nil, nil if nothing found in the pem.
+// Returns ErrNoPemBlock if no pem block is found in the data.
 func ParseKeyPem(pemDat []byte) (crypto.PrivKey, crypto.PubKey, error) {
 	b, _ := pem.Decode(pemDat)
 	if b == nil {
-		return nil, nil, nil
+		return nil, nil, ErrNoPemBlock
 	}
 
 	switch b.Type {
@@ -42,11 +42,11 @@ func ParseKeyPem(pemDat []byte) (crypto.PrivKey, crypto.PubKey, error) {
 }
 
 // ParsePrivKeyPem parses a private key in pem format.
-// If none is found returns nil
+// Returns ErrNoPemBlock if no pem block is found in the data.
 func ParsePrivKeyPem(pemDat []byte) (crypto.PrivKey, error) {
 	b, _ := pem.Decode(pemDat)
 	if b == nil {
-		return nil, nil
+		return nil, ErrNoPemBlock
 	}
 
 	if b.Type != PrivPemType {
@@ -71,7 +71,7 @@ func MarshalPrivKeyPem(key crypto.PrivKey) ([]byte, error) {
 
 // ParsePubKeyPem parses a public key in pem format.
 // Accepts either a private key or a public key.
-// If none is found returns nil
+// Returns ErrNoPemBlock if no pem block is found in the data.
 func ParsePubKeyPem(pemDat []byte) (crypto.PubKey, error) {
 	_, pub, err := ParseKeyPem(pemDat)
 	if err != nil {
